@@ -44,7 +44,8 @@ pub fn loop_exit(pending: usize, live: usize) {
 pub fn ntf(kind: &str, path: &str) {
     emit(|st| {
         let base = path.rsplit('/').next().unwrap_or(path);
-        format!("T {} ntf {} file={}", st, kind, base)
+        let tid = crate::sched::TID.with(|t| t.get());
+        format!("T {} ntf {} file={} tid={}", st, kind, base, tid as isize)
     });
 }
 
